@@ -49,6 +49,8 @@ pub(crate) struct EmbeddedReadHandle<T: TypeConfig> {
     sm: Arc<T::SM>,
     lease: Arc<ReadLease>,
     pub(crate) cmd_tx: mpsc::Sender<d_engine_core::ClientCmd>,
+    /// `Some(default)` when the server disallows client overrides: every read uses it.
+    server_policy: Option<ReadConsistencyPolicy>,
     _phantom: PhantomData<fn() -> T>,
 }
 
@@ -58,6 +60,7 @@ impl<T: TypeConfig> Clone for EmbeddedReadHandle<T> {
             sm: Arc::clone(&self.sm),
             lease: Arc::clone(&self.lease),
             cmd_tx: self.cmd_tx.clone(),
+            server_policy: self.server_policy.clone(),
             _phantom: PhantomData,
         }
     }
@@ -73,8 +76,20 @@ impl<T: TypeConfig> EmbeddedReadHandle<T> {
             sm,
             lease,
             cmd_tx,
+            server_policy: None,
             _phantom: PhantomData,
         }
+    }
+
+    /// Bind the handle to the server's read-consistency settings: with `allow_client_override`
+    /// off, every read is served under `default_policy`, whatever the caller asks for.
+    pub(crate) fn with_server_policy(
+        mut self,
+        default_policy: ReadConsistencyPolicy,
+        allow_client_override: bool,
+    ) -> Self {
+        self.server_policy = (!allow_client_override).then_some(default_policy);
+        self
     }
 
     /// Single-key read.  Convenience wrapper around [`Self::get_batch`].
@@ -103,6 +118,7 @@ impl<T: TypeConfig> EmbeddedReadHandle<T> {
         client_id: u32,
         timeout: Duration,
     ) -> ClientApiResult<Vec<Option<Bytes>>> {
+        let consistency = self.server_policy.clone().unwrap_or(consistency);
         match consistency {
             ReadConsistencyPolicy::EventualConsistency => {
                 if let Ok(values) = self.sm.get_multi(keys) {
